@@ -122,7 +122,7 @@ def match_finding(findings, prop, cls, preds):
 # ---------------------------------------------------------------- evidence
 
 def write_evidence(prop, tier, seed, coverage, wall_s, violations, assumptions, extra=None):
-    d = os.path.join(VERIF, "evidence")
+    d = os.environ.get("VERIF_EVIDENCE_DIR") or os.path.join(VERIF, "evidence")
     os.makedirs(d, exist_ok=True)
     ev = {
         "property_id": prop,
@@ -146,7 +146,7 @@ def write_evidence(prop, tier, seed, coverage, wall_s, violations, assumptions, 
 
 
 def save_replay(prop, name, obj):
-    d = os.path.join(VERIF, "replays", prop)
+    d = os.path.join(os.environ.get("VERIF_REPLAY_DIR") or os.path.join(VERIF, "replays"), prop)
     os.makedirs(d, exist_ok=True)
     name = re.sub(r"[^A-Za-z0-9_.-]", "_", name)
     path = os.path.join(d, name + ".json")
